@@ -1096,7 +1096,7 @@ func (se *stanzaEncoder) EncodeToken(t xml.Token) error {
 				tok.Name.Space = se.ns
 			}
 			var foundID, foundFrom bool
-			attrs := tok.Attr[:0]
+			attrs := make([]xml.Attr, 0, len(tok.Attr)+2)
 			for _, attr := range tok.Attr {
 				if attr.Name.Space != "" {
 					// Not one of the stanza's own attributes (eg. xml:id).
@@ -1143,7 +1143,7 @@ func (se *stanzaEncoder) EncodeToken(t xml.Token) error {
 
 		// For all start elements, regardless of depth, prevent duplicate xmlns
 		// attributes. See https://mellium.im/issue/75
-		attrs := tok.Attr[:0]
+		attrs := make([]xml.Attr, 0, len(tok.Attr)+2)
 		for _, attr := range tok.Attr {
 			if attr.Name.Local == "xmlns" && tok.Name.Space != "" {
 				continue
